@@ -1,4 +1,5 @@
 import Abyss.Db
+import Abyss.Lemmas.DbL
 import Abyss.Props.C01
 /-!
 # C11 — named maps are isolated; handles to the same map alias one state
@@ -15,35 +16,60 @@ open Db
 /-- a call on map `name` leaves every other map of the directory exactly as it was -/
 theorem C11_frame (db db' : Db) (name name' : List Char) (op : Op) (o : Out)
     (h : Db.step db name op = some (db', o)) (hne : name' ≠ name) : db'.get name' = db.get name' := by
-  sorry
+  unfold Db.step at h
+  cases hg : db.get name with
+  | none => simp [hg] at h
+  | some m =>
+    simp only [hg, Option.map_eq_some_iff] at h
+    obtain ⟨r, _, hr⟩ := h
+    have : db' = db.set name { m with store := r.1 } := (congrArg Prod.fst hr).symm
+    rw [this, Db.get_set_ne _ _ _ _ hne]
 
 /-- … in particular its contents, its length and its three files -/
 theorem C11_frame_files (db db' : Db) (name name' : List Char) (op : Op) (o : Out)
     (h : Db.step db name op = some (db', o)) (hne : name' ≠ name) (m : DbMap) (hm : db.get name' = some m) :
     db'.get name' = some m ∧ (∀ m', db'.get name' = some m' → render m'.kt m'.store = render m.kt m.store) := by
-  sorry
+  have hf := C11_frame db db' name name' op o h hne
+  refine ⟨by rw [hf, hm], fun m' hm' => ?_⟩
+  rw [hf, hm] at hm'
+  cases hm'
+  rfl
 
 /-- the call acts on the addressed map exactly like a call on a single map (so all single-map
 theorems apply to it) -/
 theorem C11_step_local (db : Db) (name : List Char) (op : Op) (m : DbMap) (hm : db.get name = some m)
     (s' : Store) (o : Out) (hs : m.store.step m.kt op = some (s', o)) :
     ∃ db', Db.step db name op = some (db', o) ∧ db'.get name = some { m with store := s' } := by
-  sorry
+  refine ⟨db.set name { m with store := s' }, ?_, Db.get_set_eq _ _ _⟩
+  simp [Db.step, hm, hs]
 
 /-- opening another map (creating it) does not touch existing maps either -/
 theorem C11_open_frame (db db' : Db) (kt : KeyType) (name name' : List Char) (n : Nat)
     (h : Db.openMap db kt name n = some db') (hne : name' ≠ name) : db'.get name' = db.get name' := by
-  sorry
+  unfold Db.openMap at h
+  cases hg : db.get name with
+  | none =>
+    simp only [hg, Option.some.injEq] at h
+    rw [← h, Db.get_set_ne _ _ _ _ hne]
+  | some m =>
+    simp only [hg] at h
+    split at h
+    · cases h; rfl
+    · cases h
 
 /-- re-opening an existing name with the same key type gives the same map (a second handle) -/
 theorem C11_reopen_same (db : Db) (name : List Char) (m : DbMap) (hm : db.get name = some m) (n : Nat) :
     Db.openMap db m.kt name n = some db := by
-  sorry
+  simp [Db.openMap, hm]
 
 /-- distinct map names never share a file: `<name>.<ext>` determines name and extension
 (extensions `key`, `val`, `htx` contain no dot) -/
 theorem C11_fileName_inj (n n' e e' : List Char) (he : e ∈ Db.exts) (he' : e' ∈ Db.exts)
     (h : Db.fileName n e = Db.fileName n' e') : n = n' ∧ e = e' := by
-  sorry
+  unfold Db.fileName at h
+  have h1 := Db.exts_length e he
+  have h2 := Db.exts_length e' he'
+  obtain ⟨hn, hE⟩ := List.append_inj' h (by simp [h1, h2])
+  exact ⟨hn, (List.cons.inj hE).2⟩
 
 end Abyss
